@@ -19,6 +19,13 @@ PROFILE = {
     'batches': [0, 1, 1, 2, 2, 3, 4, 6],
     'delta': [0, 0, 0, 1, -1, 2],
     'target_only': ['True', 'True', 'True', 'False'],
+    'cli_extra': {
+        'include_noise_baseline_features': lambda rng, wl: 'True' if rng.random() < 0.06 else None,
+        'interaction_order': lambda rng, wl: 2 if 3 <= len(wl['header']) <= 5 and rng.random() < 0.08 else None,
+        'feature_set_focus': lambda rng, wl: ','.join([h for h in wl['header'] if h != wl['label']][:2]) if len(wl['header']) >= 4 and rng.random() < 0.06 else None,
+        'explode_multivalue_features': lambda rng, wl: wl['header'][wl['kinds'].index('multi')] if 'multi' in wl['kinds'] and rng.random() < 0.5 else None,
+        'mi_stratified_sampling_ratio': lambda rng, wl: rng.choice([0.3, 0.53, 0.9]) if rng.random() < 0.06 else None,
+    },
 }
 
 RULE = ('spec = generated CSV (1-6 columns, row counts k*m-1 / k*m / k*m+1 and 1023/1024/1025 rows left over, malformed / blank lines anywhere, CRLF, '
@@ -26,6 +33,16 @@ RULE = ('spec = generated CSV (1-6 columns, row counts k*m-1 / k*m / k*m+1 and 1
         'x optional poison allocator; 70% of the runs are repeated with a kill at a seeded yield point (line read, poll sleep, chunk completion, batch boundary, '
         'checkpoint open/write/close, final writes) followed by a restart on the dirty directory.  distinct_nontrivial = distinct (rows mod m class, tail class, '
         '#batches class, malformed placement class, pool size class) with >= 2 batches or a tail decision, plus distinct (crash site, batch progress) pairs of kills that fired.')
+
+
+def _post(rng, spec):
+    cli = spec['cli']
+    ex = cli.get('explode_multivalue_features')
+    if cli.get('feature_set_focus') and ex and ex not in cli['feature_set_focus'].split(','):
+        cli['feature_set_focus'] += ',' + ex
+
+
+PROFILE['post'] = _post
 
 
 def signature(spec, v):
